@@ -212,8 +212,33 @@ type vfcrigCompactor struct {
 	sy        *Syncer
 	bc        *BucketCompactor
 	ignoreDel *block.IgnoreDeletionMarkFilter
+	cleaner   *BlocksCleaner
 	mutBkt    objstore.Bucket
 	logger    log.Logger
+}
+
+var vfcrigActivities = []string{"sync", "sync+partial-cleanup", "partial-cleanup", "clean-marked", "gc", "sync+gc"}
+
+// background runs, to completion, one of the things cmd/thanos/compact.go does concurrently with a compaction iteration on the SAME
+// Syncer / filters / cleaner: a metadata sync (progress calculation, cleanup loop), the partial-upload clean-up with the Syncer's
+// current Partial() set, the deletion of marked blocks, a garbage collection.
+func (c *vfcrigCompactor) background(ctx context.Context, act string) error {
+	cnt := func() prometheus.Counter { return prometheus.NewCounter(prometheus.CounterOpts{Name: "vfcrig"}) }
+	if strings.HasPrefix(act, "sync") {
+		if err := c.sy.SyncMetas(ctx); err != nil {
+			return err
+		}
+	}
+	switch strings.TrimPrefix(act, "sync+") {
+	case "partial-cleanup":
+		BestEffortCleanAbortedPartialUploads(ctx, c.logger, c.sy.Partial(), c.mutBkt, cnt(), cnt(), cnt(), c.ignoreDel.DeletionMarkBlocks())
+	case "clean-marked":
+		_, err := c.cleaner.DeleteMarkedBlocks(ctx)
+		return err
+	case "gc":
+		return c.sy.GarbageCollect(ctx, nil)
+	}
+	return nil
 }
 
 // vfcrigNewCompactor mirrors runCompact in cmd/thanos/compact.go: the fetcher and the marker filters read through
@@ -286,7 +311,7 @@ func vfcrigNewCompactor(ctx context.Context, set vfcrigSet, o vfcrigOpts, syncBk
 	if err != nil {
 		return nil, err
 	}
-	return &vfcrigCompactor{sy: sy, bc: bc, ignoreDel: ignoreDeletionMarkFilter, mutBkt: mutBkt, logger: logger}, nil
+	return &vfcrigCompactor{sy: sy, bc: bc, ignoreDel: ignoreDeletionMarkFilter, cleaner: blocksCleaner, mutBkt: mutBkt, logger: logger}, nil
 }
 
 // cycle mirrors compactMainFn of cmd/thanos/compact.go with downsampling disabled and no retention configured:
